@@ -805,7 +805,7 @@ class PhaseField(_Simu):
             elif "y" in result:
                 return 1
             elif "z" in result:
-                return 1
+                return 2
             else:
                 raise ValueError("result error")
         else:
